@@ -475,7 +475,8 @@ def expressions(ctx, model_ok, tmp):
                               ("cmp", "=", ("col", "instrument"), ("lit", "J")), ("not", ("cmp", "=", ("col", "instrument"), ("lit", "I"))),
                               ("cmp", ">", ("col", "instrument"), ("lit", "I")),
                               ("or", ("cmp", "=", ("col", "instrument"), ("lit", "I")), ("cmp", "=", ("col", "instrument"), ("lit", "J")))])
-            e = ("and", gov, e) if rng.random() < 0.8 else ("or", gov, e)
+            # OR only with an atom: both query systems keep conjunctive normal form, exponential in the number of alternations
+            e = ("or", gov, e) if (rng.random() < 0.2 and e[0] not in ("and", "or", "not") and gov[0] != "or") else ("and", gov, e)
         want = {r_["_key"] for r_ in rows if ev_p(e, r_) is True}
         if len(want) in (0, len(rows)):
             constant += 1
@@ -483,6 +484,9 @@ def expressions(ctx, model_ok, tmp):
             ctx.nontrivial.add(repr(e))
         rn, rl = Render(False), Render(True)
         s_new, s_leg = rn.p(e), rl.p(e)
+        import time as _time
+
+        _t_expr = _time.time()
         ctx.evaluations += 1
         ctx.count(f"{tname}:predicate:" + e[0])
         req.append("ev sel 1 " + " ".join(tokens(e)) + " ROWS " + rows_tok[tname])
@@ -497,6 +501,10 @@ def expressions(ctx, model_ok, tmp):
                 ctx.count(f"new-refuses:{str(ex)[:40]}")
             except Exception as ex:
                 got_new[api] = f"{type(ex).__name__}: {str(ex)[:100]}"
+                if "Expression tree is too large" in got_new[api]:
+                    # known finding C05-e (CNF explosion): building such a statement takes minutes; once is enough
+                    break
+        too_large_seen = any(isinstance(g_, str) and "Expression tree is too large" in g_ for g_ in got_new.values())
         g = got_new["query_data_ids"]
         impl.append("".join(("T" if r_["_key"] in g else "?") for r_ in rows) if isinstance(g, set) else "error")
         for api, got in got_new.items():
@@ -516,6 +524,8 @@ def expressions(ctx, model_ok, tmp):
                 break
         # legacy: whenever it accepts the expression it must return the same rows.
         for api, f in spec["legacy"].items():
+            if too_large_seen:
+                break
             try:
                 got = f(s_leg, rl.bind, spec["kw"])
             except Exception as ex:
@@ -538,6 +548,9 @@ def expressions(ctx, model_ok, tmp):
                      f"selects {sorted(expect)}", key, {"kind": "expression", "where": s_leg, "bind": {k: v for k, v in rl.bind.items()}, "api": api, "target": tname})
                 break
         ctx.sample({"where": s_new, "selected": len(want)}, cap=8)
+        _dt = _time.time() - _t_expr
+        if _dt > ctx.extra.get("slowest_expression_s", 0):
+            ctx.extra["slowest_expression_s"], ctx.extra["slowest_expression"] = round(_dt, 2), s_new
     point_overlaps(ctx, b)
     ctx.extra["constant_predicates"] = constant
     ctx.extra["expressions"] = n_expr + len(corpus)
@@ -577,6 +590,14 @@ def point_overlaps(ctx, b):
         for ra, dec in points:
             vec = sg.UnitVector3d(sg.LonLat.fromDegrees(ra, dec))
             want = sorted(v for v, r_ in regions.items() if r_ is not None and r_.contains(vec))
+            # a point within a micro-degree of an edge is decided by sphgeom's floating-point tolerance (the polygon's containment
+            # test and the region relation the query uses may differ there); geometry is a parameter, not a subject, of C05
+            near = [sorted(v for v, r_ in regions.items() if r_ is not None and
+                           r_.contains(sg.UnitVector3d(sg.LonLat.fromDegrees(ra + dx, dec + dy))))
+                    for dx, dy in ((1e-6, 0), (-1e-6, 0), (0, 1e-6), (0, -1e-6))]
+            if any(n_ != want for n_ in near):
+                ctx.count("point-overlap:on-an-edge-skipped")
+                continue
             where = f"instrument = 'I' AND visit.region OVERLAPS POINT({ra}, {dec})"
             for dims in (["visit"], ["visit", common], ["visit", "physical_filter"]):
                 ctx.evaluations += 1
